@@ -12,9 +12,17 @@ package fschannel
 //@ spec rfOK(f *rotateFile) bool = 0 <= f.pos && f.pos <= f.maxSize && f.maxSize < 1<<40
 //
 //@ func (*rotateFile).reopen
-//@   ensures result == nil ==> f.pos == 0 && f.f != nil
+//@   ensures result == nil ==> f.pos == 0 && f.f != nil && fexists[f.path]
 //@   ensures result != nil ==> f.pos == old(f.pos)
-//@   modifies f.f, f.pos
+//@   modifies f.f, f.pos, fexists
+//
+// Opening an existing log continues where it ends: the position is the file's size (filesize: what
+// Seek(0, end) reports), unless the file was already full and has been rotated away.
+//@ func OpenRotateFile
+//@   physical 0 <= nrenames && nrenames < 1<<49
+//@   ensures [pos-is-size] result1 == nil && nrenames == old(nrenames) ==> result0 != nil && result0.pos == filesize(result0.f) && result0.path == name && result0.maxSize == maxSize
+//@   ensures [rotated-when-full] result1 == nil && nrenames != old(nrenames) ==> result0 != nil && result0.pos == 0
+//@   modifies *
 //
 // rotate: the active file is renamed away and a new empty one is opened; a rotation must never
 // overwrite an earlier rotated file.
@@ -22,7 +30,7 @@ package fschannel
 //@   physical 0 <= nrenames && nrenames < 1<<49
 //@   callpre os.Rename: !fexists[newpath]
 //@   ensures nrenames == old(nrenames) + 1
-//@   ensures result == nil ==> f.pos == 0
+//@   ensures result == nil ==> f.pos == 0 && fexists[f.path]
 //@   modifies f.f, f.pos, nrenames, fexists
 //
 // Write(p): p is a batch of complete lines (it ends with '\n'). Every byte of p is either written
@@ -37,8 +45,10 @@ package fschannel
 //@   ensures [written-or-newline] result1 == nil ==> fwritten - old(fwritten) <= len(p) && len(p) - (fwritten - old(fwritten)) <= nrenames - old(nrenames)
 //@   ensures [size] result1 == nil ==> rfOK(f)
 //@   callpre Write: caller.f.pos + len(b) <= caller.f.maxSize || caller.f.pos == 0
+//@   callpre Write: fexists[caller.f.path]
 //@   modifies *
 //@   loop 1: invariant suffixof(p, old(p)) && rfOK(f)
+//@   loop 1: invariant [path-exists] fexists[f.path]
 //@   loop 1: invariant [ends-with-newline] len(p) == 0 || p[len(p)-1] == '\n'
 //@   loop 1: invariant [consumed] written == len(old(p)) - len(p)
 //@   loop 1: invariant [mono] old(nrenames) <= nrenames && old(fwritten) <= fwritten && 0 <= written
